@@ -663,4 +663,244 @@ theorem flush_seg (d : Disk) (v : Vol) (junk : List WalFile) (ro rc : List Mutat
             have : usable (flushStep v.s) = false := hf
             rw [hu'] at this; cases this }
 
+/-! ## the WAL appender -/
+
+/-- the files in front of the current one: leftovers and the one handed to the flusher -/
+def frontFiles (v : Vol) (junk : List WalFile) (ro : List Mutation) : List WalFile :=
+  junk ++ (if v.s.flushPending then [{ num := v.walOld.getD 0, recs := ro }] else [])
+
+theorem wal_front {d : Disk} {v : Vol} {junk : List WalFile} {ro rc : List Mutation} {tn : Bool}
+    (h : QW d v junk ro rc tn) (hu : usable v.s = true) :
+    d.wal = frontFiles v junk ro ++ [{ num := v.walCur, recs := rc, torn := tn }] := by
+  rw [h.wal]
+  simp [liveFiles, hu, frontFiles]
+
+theorem front_good {d : Disk} {v : Vol} {junk : List WalFile} {ro rc : List Mutation} {tn : Bool}
+    (h : QW d v junk ro rc tn) : ∀ f ∈ frontFiles v junk ro, f.header = true ∧ f.torn = false := by
+  intro f hf
+  unfold frontFiles at hf
+  rcases List.mem_append.1 hf with (hf | hf)
+  · exact ⟨(h.jk f hf).1, (h.jk f hf).2.2⟩
+  · split at hf
+    · simp only [List.mem_singleton] at hf; subst hf; exact ⟨rfl, rfl⟩
+    · cases hf
+
+theorem front_ne {d : Disk} {v : Vol} {junk : List WalFile} {ro rc : List Mutation} {tn : Bool}
+    (h : QW d v junk ro rc tn) (hu : usable v.s = true) : ∀ f ∈ frontFiles v junk ro, f.num < v.walCur := by
+  have hs := h.walSorted
+  rw [wal_front h hu] at hs
+  exact sorted_last hs
+
+/-- changing only the last WAL file, without changing its number or its complete records -/
+theorem last_file_good (d : Disk) (hd : DiskOk d) (pre : List WalFile) (x y : WalFile) (hw : d.wal = pre ++ [x])
+    (hpre : ∀ f ∈ pre, f.header = true ∧ f.torn = false) (hn : y.num = x.num) (hm : fileMuts y = fileMuts x) :
+    Good3 d { d with wal := pre ++ [y] } := by
+  refine ⟨?_, ?_⟩
+  · refine { hd with walSorted := ?_, walDirOk := ?_, walRead := walReadable_good pre hpre y, putsOk := ?_ }
+    · have := hd.walSorted
+      rw [hw] at this
+      show ((pre ++ [y]).map (·.num)).Pairwise (· < ·)
+      simpa [hn] using this
+    · intro hf
+      have := hd.walDirOk hf
+      rw [hw] at this
+      simp at this
+    · have := hd.putsOk
+      rw [hw] at this
+      show ∀ m ∈ walMuts (pre ++ [y]), m.ok = true
+      simpa [walMuts, hm] using this
+  · funext k
+    simp only [logical_eq, effTables, phase1, hw, walMuts_append, walMuts_cons, walMuts_nil, hm]
+
+/-- closing the current file, creating the next one and writing its header (the memstore has been handed to
+the flusher, the buffer is empty): a new empty file changes nothing -/
+theorem rotTail_seg (d : Disk) (v : Vol) (junk : List WalFile) (ro rc : List Mutation) (tn : Bool)
+    (h : QW d v junk ro rc tn) (hu : usable v.s = true) (hp : v.s.flushPending = false) (hq : v.queue = []) :
+    Seg (Good3 d) (fun x => x = d) [.walClose v.walCur, .walCreate (v.walCur + 1), .walHeader (v.walCur + 1)]
+      (fun x => QW x { s := rotate v.s, walCur := v.walCur + 1, walOld := some v.walCur, queue := [] } junk rc [] false) := by
+  have htn : tn = false := by
+    cases tn with
+    | false => rfl
+    | true => exact absurd hq (h.tnq rfl)
+  subst htn
+  obtain ⟨hwd, hw, _⟩ := h.live hu
+  rw [hq, List.append_nil] at hw
+  have hwal : d.wal = junk ++ [{ num := v.walCur, recs := rc }] := by
+    rw [h.wal]; simp [liveFiles, hu, hp]
+  have hlt : ∀ y ∈ d.wal, y.num < v.walCur + 1 := by
+    intro y hy
+    rw [hwal] at hy
+    rcases List.mem_append.1 hy with (hy | hy)
+    · have hs := h.walSorted
+      rw [hwal] at hs
+      have := sorted_last hs y hy
+      simp only at this; omega
+    · simp only [List.mem_singleton] at hy; subst hy; simp
+  have hgoodall : ∀ f ∈ d.wal, f.header = true ∧ f.torn = false := by
+    intro f hf
+    rw [hwal] at hf
+    rcases List.mem_append.1 hf with (hf | hf)
+    · exact ⟨(h.jk f hf).1, (h.jk f hf).2.2⟩
+    · simp only [List.mem_singleton] at hf; subst hf; exact ⟨rfl, rfl⟩
+  have hd := h.diskOk
+  -- a header-less / empty new file
+  have hnew : ∀ hb : Bool, Good3 d { d with wal := d.wal ++ [{ num := v.walCur + 1, header := hb }] } := by
+    intro hb
+    refine ⟨?_, ?_⟩
+    · refine { hd with walSorted := ?_, walDirOk := ?_, walRead := walReadable_good d.wal hgoodall _, putsOk := ?_ }
+      · show ((d.wal ++ [_]).map WalFile.num).Pairwise (· < ·)
+        rw [List.map_append, List.pairwise_append]
+        refine ⟨hd.walSorted, by simp, ?_⟩
+        intro a ha b hb'
+        obtain ⟨y, hy, rfl⟩ := List.mem_map.1 ha
+        simp only [List.map_cons, List.map_nil, List.mem_singleton] at hb'
+        subst hb'
+        exact hlt y hy
+      · intro hf; have hf : d.walDir = false := hf; rw [hwd] at hf; cases hf
+      · show ∀ m ∈ walMuts (d.wal ++ [_]), m.ok = true
+        rw [walMuts_append]
+        have : walMuts [({ num := v.walCur + 1, header := hb } : WalFile)] = [] := by
+          cases hb <;> simp [walMuts, fileMuts]
+        rw [this, List.append_nil]
+        exact hd.putsOk
+    · funext k
+      have : walMuts [({ num := v.walCur + 1, header := hb } : WalFile)] = [] := by
+        cases hb <;> simp [walMuts, fileMuts]
+      simp only [logical_eq, effTables, phase1, walMuts_append, this, List.append_nil]
+  refine Seg.cons (Q := fun x => x = d) ?_
+    (Seg.cons (Q := fun x => x = { d with wal := d.wal ++ [{ num := v.walCur + 1, header := false }] }) ?_
+      (Seg.cons (Q := fun x => x = { d with wal := d.wal ++ [{ num := v.walCur + 1, header := true }] }) ?_ (Seg.nil ?_)))
+  · intro x hx; subst hx
+    exact ⟨⟨hd, rfl⟩, rfl⟩
+  · intro x hx; subst hx
+    refine ⟨⟨hd, rfl⟩, ?_⟩
+    simp only [applyEv, hwd, if_true]
+    rw [insertW_last _ _ hlt]
+  · intro x hx
+    refine ⟨hx ▸ hnew false, ?_⟩
+    subst hx
+    simp only [applyEv]
+    rw [updW_last (v.walCur + 1) _ d.wal _ (fun y hy => by have := hlt y hy; omega) rfl]
+  · intro x hx
+    refine ⟨hx ▸ hnew true, ?_⟩
+    subst hx
+    have hfs : flushStep v.s = v.s := flushStep_not_pending _ hp
+    have hrot : rotate v.s = { v.s with r := v.s.w, w := [], flushPending := true } := by
+      rw [rotate_eq, hfs]
+    have hu' : usable (rotate v.s) = true := by rw [hrot]; exact hu
+    have hpr : (rotate v.s).flushPending = true := by rw [hrot]
+    exact {
+      inv := rotate_inv _ h.inv (by rw [← usable_eq]; exact hu)
+      tables := by
+        show d.tables = encT (rotate v.s).tables
+        rw [hrot]; exact h.tables
+      comps := h.comps
+      walSorted := (hnew true).1.walSorted
+      qok := by intro m hm; cases hm
+      jk := h.jk
+      wal := by
+        show d.wal ++ _ = _
+        rw [hwal]
+        simp [liveFiles, hu', hpr]
+      rok := h.cok
+      cok := by intro m hm; cases hm
+      tnq := by intro hf; cases hf
+      live := by
+        intro _
+        refine ⟨hwd, ?_, ?_⟩
+        · show applyMuts [] ([] ++ []) = (rotate v.s).w
+          rw [hrot]; rfl
+        · intro _
+          refine ⟨?_, rfl⟩
+          show applyMuts [] rc = (rotate v.s).r
+          rw [hrot]; exact hw
+      idle := by
+        intro hf
+        have : usable (rotate v.s) = false := hf
+        rw [hu'] at this; cases this }
+
+/-- the process state after an accepted write -/
+def wrote (v : Vol) (m : Mutation) : Vol := { v with s := { v.s with w := m.apply v.s.w } }
+
+theorem wrote_inv {v : Vol} (h : Inv v.s) (hu : usable v.s = true) (m : Mutation) (hm : m.ok = true) :
+    Inv (wrote v m).s := by
+  show Inv { v.s with w := m.apply v.s.w }
+  rw [apply_eq_set]
+  apply setW_inv v.s h (by rw [← usable_eq]; exact hu)
+  intro b hb
+  cases m with
+  | put k x =>
+    simp only [Mutation.val, Option.some.injEq] at hb
+    subst hb
+    intro he; subst he
+    simp [Mutation.ok] at hm
+  | del k => simp [Mutation.val] at hb
+
+/-- synchronous append: the record reaches the file (possibly in two writes) before the call returns -/
+theorem writeSync_seg (d : Disk) (v : Vol) (junk : List WalFile) (ro rc : List Mutation) (tn : Bool)
+    (h : QW d v junk ro rc tn) (hu : usable v.s = true) (hq : v.queue = []) (m : Mutation) (hm : m.ok = true) :
+    Seg (fun x => DiskOk x ∧ (logical x = abs v.s ∨ logical x = abs (wrote v m).s)) (fun x => x = d)
+      [.walTorn v.walCur, .walAppend v.walCur m] (fun x => QW x (wrote v m) junk ro (rc ++ [m]) false) := by
+  have htn : tn = false := by
+    cases tn with
+    | false => rfl
+    | true => exact absurd hq (h.tnq rfl)
+  subst htn
+  have hwal := wal_front h hu
+  have hgood := front_good h
+  have hne : ∀ y ∈ frontFiles v junk ro, y.num ≠ v.walCur := fun y hy => by have := front_ne h hu y hy; omega
+  have hd := h.diskOk
+  have hlog := h.serves_sync hq
+  obtain ⟨hwd, hw, hpend⟩ := h.live hu
+  have hQ2 : QW { d with wal := frontFiles v junk ro ++ [{ num := v.walCur, recs := rc ++ [m] }] } (wrote v m) junk ro
+      (rc ++ [m]) false := {
+    inv := wrote_inv h.inv hu m hm
+    tables := h.tables
+    comps := h.comps
+    walSorted := by
+      have := h.walSorted
+      rw [hwal] at this
+      show ((frontFiles v junk ro ++ [_]).map WalFile.num).Pairwise (· < ·)
+      simpa using this
+    qok := h.qok
+    jk := h.jk
+    wal := by
+      show frontFiles v junk ro ++ _ = junk ++ liveFiles (wrote v m) ro (rc ++ [m]) false
+      have : usable ({ v.s with w := Mutation.apply v.s.w m } : State) = true := hu
+      simp [liveFiles, this, frontFiles, wrote]
+      rfl
+    rok := h.rok
+    cok := by
+      intro x hx
+      rcases List.mem_append.1 hx with (hx | hx)
+      · exact h.cok x hx
+      · simp only [List.mem_singleton] at hx; subst hx; exact hm
+    tnq := by intro hf; cases hf
+    live := by
+      intro _
+      refine ⟨hwd, ?_, hpend⟩
+      show applyMuts [] (rc ++ [m] ++ v.queue) = m.apply v.s.w
+      rw [hq, List.append_nil] at hw ⊢
+      rw [applyMuts_append, hw]; rfl
+    idle := by
+      intro hf
+      have : usable v.s = false := hf
+      rw [hu] at this; cases this }
+  refine Seg.cons (Q := fun x => x = { d with wal := frontFiles v junk ro ++ [{ num := v.walCur, recs := rc, torn := true }] }) ?_
+    (Seg.cons (Q := fun x => x = { d with wal := frontFiles v junk ro ++ [{ num := v.walCur, recs := rc ++ [m] }] }) ?_ (Seg.nil ?_))
+  · intro x hx; subst hx
+    refine ⟨⟨hd, Or.inl hlog⟩, ?_⟩
+    simp only [applyEv]
+    rw [hwal, updW_last _ _ _ _ hne rfl]
+  · intro x hx
+    have hg := last_file_good d hd _ _ { num := v.walCur, recs := rc, torn := true } hwal hgood rfl rfl
+    refine ⟨⟨hx ▸ hg.1, Or.inl (by rw [hx, hg.2]; exact hlog)⟩, ?_⟩
+    subst hx
+    simp only [applyEv]
+    rw [updW_last _ _ _ _ hne rfl]
+    rfl
+  · intro x hx
+    subst hx
+    exact ⟨⟨hQ2.diskOk, Or.inr (hQ2.serves_sync hq)⟩, hQ2⟩
+
 end SST.Proofs.FS
